@@ -253,6 +253,9 @@ func runShard(bin string, in info, tier string, seed uint64, shard, shards, budg
 		if exhaustive {
 			args = append(args, "-vexhaustive")
 		}
+		if os.Getenv("VERIF_SURVEY") != "" {
+			args = append(args, "-vsurvey")
+		}
 		cmd := exec.Command(bin, args...)
 		cmd.Env = goEnv()
 		cmd.Dir = work
@@ -298,6 +301,9 @@ func runShard(bin string, in info, tier string, seed uint64, shard, shards, budg
 			break
 		}
 		if code == 0 {
+			if st != nil && len(st.Violations) > 0 && os.Getenv("VERIF_SURVEY") != "" {
+				break
+			}
 			break
 		}
 		if code == 1 && st != nil && st.Done {
@@ -324,11 +330,37 @@ func runShard(bin string, in info, tier string, seed uint64, shard, shards, budg
 			break
 		}
 		sig := deathSig(string(eb), code)
-		res.deathRecs = append(res.deathRecs, core.ViolationRec{Property: in.ID, Sig: sig, Msg: tail(string(eb), 1500), Case: cj, Seed: ds, Tier: tier})
+		res.deathRecs = append(res.deathRecs, core.ViolationRec{Property: in.ID, Sig: sig, Msg: deathExcerpt(string(eb)), Case: cj, Seed: ds, Tier: tier})
 		remaining--
 		res.restarts++
 	}
 	return res
+}
+
+// deathExcerpt keeps the informative part of a dying worker's stderr.
+func deathExcerpt(stderr string) string {
+	i := strings.Index(stderr, "fatal error:")
+	if j := strings.Index(stderr, "WARNING: DATA RACE"); j >= 0 && (i < 0 || j < i) {
+		i = j
+	}
+	if j := strings.Index(stderr, "runtime: goroutine stack exceeds"); j >= 0 && (i < 0 || j < i) {
+		i = j
+	}
+	if i < 0 {
+		return tail(stderr, 1500)
+	}
+	ex := stderr[i:]
+	var keep []string
+	for _, l := range strings.Split(ex, "\n") {
+		if strings.HasPrefix(l, "\t") {
+			continue
+		}
+		keep = append(keep, l)
+		if len(keep) > 30 {
+			break
+		}
+	}
+	return strings.Join(keep, "\n")
 }
 
 func propIndex(id string) int {
